@@ -262,7 +262,12 @@ class TimeShim:
         k.yield_point("time")
         return k.now
 
-    monotonic = time
+    def monotonic(self):
+        # a clock of its own with another origin, as on a real machine (seconds since boot, not since 1970):
+        # code that compares a monotonic reading with a time.time() stamp must not look right in the simulator
+        k = self._k
+        k.yield_point("time")
+        return 5000.0 + (k.now - k.t0)
 
     def sleep(self, dt):
         k = self._k
